@@ -129,7 +129,7 @@ def canon_driver(kind, out):
 
 def run(pid, tier, seed, replay=None):
     chk = Check(pid, tier, seed)
-    chk.coq(extra_files=['Containers'])
+    chk.coq(extra_files=['Containers', 'HashTabProofs'])
     quick = tier == 'quick'
     rng = chk.rng
     N = 1500 if quick else 20000
